@@ -616,9 +616,15 @@ func (s *State) strConst(v string) Term {
 	if v == "" {
 		return Term{"str.empty", sortStr}
 	}
-	name := "str:" + v
+	// the name is an SMT symbol on one line: control characters, '|' and
+	// '\\' are written as escapes (two different strings never share a name:
+	// the hash of the original text is appended whenever something was escaped)
+	esc := strings.NewReplacer("\n", "\\n", "\t", "\\t", "\r", "\\r", "|", "\\p", "\\", "\\b").Replace(v)
+	name := "str:" + esc
 	if len(name) > 60 {
-		name = fmt.Sprintf("str:%s..#%d", v[:40], hashStr(v))
+		name = fmt.Sprintf("str:%s..#%d", esc[:40], hashStr(v))
+	} else if esc != v {
+		name = fmt.Sprintf("str:%s#%d", esc, hashStr(v))
 	}
 	s.x.w.strConsts[name] = v
 	return s.declare(name, sortStr)
